@@ -8,6 +8,12 @@ R20.3 every self.<method>() call on the write paths resolves in the class's MRO
 Added in build round 2 (see DESIGN.md section 3, round-2 table):
 R20.4 the delimited reader keeps every record: in load_delimited each row the csv reader yields is appended unchanged (no filtering `continue`, no ...
 R20.5 cells form an equality domain only (a column of mixed types or with missing values is an object array whose elements cannot be ordered): the ...
+
+Added later in build rounds 2-3 (see DESIGN.md section 3, round-2/3 table):
+R20.6 derived state stays coherent: when an attribute of Columns is computed from other attributes of the same object (self._template = ...
+R20.7 text read from a delimited file is data: no function on the read path (load_table -> load_delimited -> cast_str_to_array / cast_str_to_numeric) ...
+R20.8 list-of-rows semantics of filtering and sorting: (i) the row predicate is used through its truth value (bool(...), `if cb(row)`), never compared with ...
+R20.9 join keys: the two key-column lists of inner_join are compared position by position, so in the natural-join branch (no columns given) both lists come ...
 """
 
 from __future__ import annotations
